@@ -7,7 +7,7 @@
    rewriter produce srel-related code; the theorem says such code has the same
    meaning in tail position under the generalised callback semantics. *)
 From Coq Require Import List Arith Bool Lia.
-From Verif Require Import Base Syntax Sem SemLemmas Rewrite RwBase Rel TermSound.
+From Verif Require Import Base Syntax Sem SemLemmas Rewrite Side RwBase Rel TermSound.
 Import ListNotations.
 
 Set Implicit Arguments.
@@ -15,14 +15,19 @@ Set Implicit Arguments.
 Definition crel_clauses (R : list stmt -> list stmt -> Prop) (a b : clabel * list stmt) : Prop :=
   fst a = fst b /\ R (snd a) (snd b).
 
+Inductive orel {A} (R : A -> A -> Prop) : option A -> option A -> Prop :=
+| or_none : orel R None None
+| or_some a b : R a b -> orel R (Some a) (Some b).
+
 Inductive srel : bool -> bool -> stmt -> stmt -> Prop :=
 | sr_atom il isw a : srel il isw (SAtom a) (SAtom a)
 | sr_yield il isw v : srel il isw (SYield v) (SYield v)
 | sr_block il isw b b' : Forall2 (srel il isw) b b' -> srel il isw (SBlock b) (SBlock b')
-| sr_if il isw i c t t' e e' : Forall2 (srel il isw) t t' -> erel il isw e e' -> srel il isw (SIf i c t e) (SIf i c t' e')
-| sr_switch il isw i tag cs cs' :
-    Forall2 (crel_clauses (Forall2 (srel il true))) cs cs' -> srel il isw (SSwitch i tag cs) (SSwitch i tag cs')
-| sr_for il isw i c p b b' : Forall2 (srel true isw) b b' -> srel il isw (SFor i c p b) (SFor i c p b')
+| sr_if il isw i i' c t t' e e' : orel (srel il isw) i i' -> Forall2 (srel il isw) t t' -> erel il isw e e' -> srel il isw (SIf i c t e) (SIf i' c t' e')
+| sr_switch il isw i i' tag cs cs' : orel (srel il true) i i' ->
+    Forall2 (crel_clauses (Forall2 (srel il true))) cs cs' -> srel il isw (SSwitch i tag cs) (SSwitch i' tag cs')
+| sr_for il isw i i' c p p' b b' : orel (srel true isw) i i' -> orel (srel true isw) p p' ->
+    Forall2 (srel true isw) b b' -> srel il isw (SFor i c p b) (SFor i' c p' b')
 | sr_break il isw : srel il isw SBreak SBreak
 | sr_break_ret : srel false false SBreak (SRet XBreak)
 | sr_continue il isw : srel il isw SContinue SContinue
@@ -39,7 +44,7 @@ with xrel : sexp -> sexp -> Prop :=
 | xr_bind v t t' : trel t t' -> xrel (XBind v t) (XBind v t')
 | xr_delay t t' : trel t t' -> xrel (XDelay t) (XDelay t')
 | xr_combine a a' b b' : xrel a a' -> xrel b b' -> xrel (XCombine a b) (XCombine a' b')
-| xr_for c p body body' : xrel body body' -> xrel (XFor c p body) (XFor c p body')
+| xr_for c p p' body body' : orel (srel false false) p p' -> xrel body body' -> xrel (XFor c p body) (XFor c p' body')
 | xr_normal : xrel XNormal XNormal
 | xr_break : xrel XBreak XBreak
 | xr_continue : xrel XContinue XContinue
@@ -80,7 +85,7 @@ Section S.
   | vr_bind v t t' : trel t t' -> vrel (VBind v t) (VBind v t')
   | vr_delay t t' : trel t t' -> vrel (VDelay t) (VDelay t')
   | vr_combine a a' b b' : vrel a a' -> vrel b b' -> vrel (VCombine a b) (VCombine a' b')
-  | vr_for c p body body' : vrel body body' -> vrel (VFor c p body) (VFor c p body')
+  | vr_for c p p' body body' : orel (srel false false) p p' -> vrel body body' -> vrel (VFor c p body) (VFor c p' body')
   | vr_sig g : vrel (VSig g) (VSig g).
 
   (* related native completions *)
@@ -165,11 +170,12 @@ Section S.
     (forall il cs cs' w x, clauses_rel il cs cs' -> exfrom n cs w = Some x -> exists x', exfrom n cs' w = Some x' /\ crel il true x x') /\
     (forall il a a' l l' w x, clauses_rel il a a' -> clauses_rel il l l' -> expick n a l w = Some x ->
         exists x', expick n a' l' w = Some x' /\ crel il true x x') /\
-    (forall isw c p b b' w x, Forall2 (srel true isw) b b' -> exloop n c p b w = Some x ->
-        exists x', exloop n c p b' w = Some x' /\ crel true isw x x') /\
+    (forall isw c p p' b b' w x, orel (srel true isw) p p' -> Forall2 (srel true isw) b b' -> exloop n c p b w = Some x ->
+        exists x', exloop n c p' b' w = Some x' /\ crel true isw x x') /\
     (forall sv sv' w r, vrel sv sv' -> rung n sv w = Some r -> rung n sv' w = Some r) /\
     (forall t t' w r, trel t t' -> callg n t w = Some r -> callg n t' w = Some r) /\
-    (forall c p body body' sk w r, vrel body body' -> runloop n c p body sk w = Some r -> runloop n c p body' sk w = Some r).
+    (forall c p p' body body' sk w r, orel (srel false false) p p' -> vrel body body' ->
+        runloop n c p body sk w = Some r -> runloop n c p' body' sk w = Some r).
   Proof.
     induction n as [|n [IHE [IHL [IHF [IHP [IHLP [IHR [IHC IHRL]]]]]]]].
     { repeat split; intros; discriminate. }
@@ -192,6 +198,10 @@ Section S.
       - apply Hf. exact Hy.
       - inv Hy. eexists. split; [reflexivity|constructor].
       - inv Hy. eexists. split; [reflexivity|constructor]. }
+    assert (Hopt : forall il isw i i' w y, orel (srel il isw) i i' ->
+              match i with None => Some (CDone GNormal w) | Some x0 => exec n x0 w end = Some y ->
+              exists y', match i' with None => Some (CDone GNormal w) | Some x0 => exec n x0 w end = Some y' /\ crel il isw y y').
+    { intros il isw i i' w y Ho Hy. inversion Ho; subst; [eexists; split; [exact Hy|constructor]|]. eapply IHE; eauto. }
     repeat split.
     - (* statements *)
       intros il isw s s' w x Hs Hx. rewrite exec_S in Hx.
@@ -201,30 +211,33 @@ Section S.
       + eapply IHL; eauto.
       + (* if *)
         destruct (match i with None => Some (CDone GNormal w) | Some x0 => exec n x0 w end) as [yi|] eqn:Ei; [|discriminate].
-        eapply Hafter; [apply cr_same| |exact Hx].
-        intros w1 y1 H1. eapply Hlift; [|exact H1]. intros bb w2 y2 H2. cbv beta in H2 |- *.
+        match goal with Ho : orel _ i i' |- _ => destruct (Hopt il isw i i' w yi Ho Ei) as [yi' [-> Hci]] end.
+        eapply Hafter; [exact Hci| |exact Hx].
+        intros w1 y1 HH1. eapply Hlift; [|exact HH1]. intros bb w2 y2 HH2. cbv beta in HH2 |- *.
         destruct bb; [eapply IHL; eauto|].
         match goal with He : erel _ _ _ _ |- _ => inversion He; subst end.
-        * inv H2. eexists. split; [reflexivity|constructor].
+        * inv HH2. eexists. split; [reflexivity|constructor].
         * eapply IHL; eauto.
         * eapply IHE; eauto.
       + (* switch *)
         destruct (match i with None => Some (CDone GNormal w) | Some x0 => exec n x0 w end) as [yi|] eqn:Ei; [|discriminate].
-        eapply Hafter; [apply cr_same| |exact Hx].
-        intros w1 y1 H1. destruct tag as [t|].
-        * eapply Hlift; [|exact H1]. intros tv w2 y2 H2. cbv beta in H2 |- *.
+        match goal with Ho : orel _ i i' |- _ => destruct (Hopt il true i i' w yi Ho Ei) as [yi' [-> Hci]] end.
+        eapply Hafter; [apply crel_weaken; exact Hci| |exact Hx].
+        intros w1 y1 HH1. destruct tag as [t|].
+        * eapply Hlift; [|exact HH1]. intros tv w2 y2 HH2. cbv beta in HH2 |- *.
           match goal with Hc : Forall2 _ cs cs' |- _ => pose proof (pick_clause_rel tv Hc) as Hp; pose proof (default_from_rel Hc) as Hd end.
           destruct (pick_clause kval tv cs) as [d|], (pick_clause kval tv cs') as [d'|]; try contradiction.
-          -- destruct (IHF il d d' w2 y2 Hp H2) as [y' [Hy' Hc']]. exists y'. split; [exact Hy'|apply crel_weaken; exact Hc'].
+          -- destruct (IHF il d d' w2 y2 Hp HH2) as [y' [Hy' Hc']]. exists y'. split; [exact Hy'|apply crel_weaken; exact Hc'].
           -- destruct (default_from cs) as [d|], (default_from cs') as [d'|]; try contradiction.
-             ++ destruct (IHF il d d' w2 y2 Hd H2) as [y' [Hy' Hc']]. exists y'. split; [exact Hy'|apply crel_weaken; exact Hc'].
-             ++ inv H2. eexists. split; [reflexivity|constructor].
-        * match goal with Hc : Forall2 _ cs cs' |- _ => destruct (IHP il cs cs' cs cs' w1 y1 Hc Hc H1) as [y' [Hy' Hc']] end.
+             ++ destruct (IHF il d d' w2 y2 Hd HH2) as [y' [Hy' Hc']]. exists y'. split; [exact Hy'|apply crel_weaken; exact Hc'].
+             ++ inv HH2. eexists. split; [reflexivity|constructor].
+        * match goal with Hc : Forall2 _ cs cs' |- _ => destruct (IHP il cs cs' cs cs' w1 y1 Hc Hc HH1) as [y' [Hy' Hc']] end.
           exists y'. split; [exact Hy'|apply crel_weaken; exact Hc'].
       + (* for *)
         destruct (match i with None => Some (CDone GNormal w) | Some x0 => exec n x0 w end) as [yi|] eqn:Ei; [|discriminate].
-        eapply Hafter; [apply cr_same| |exact Hx].
-        intros w1 y1 H1. destruct (IHLP isw c p b b' w1 y1 ltac:(assumption) H1) as [y' [Hy' Hc']].
+        match goal with Ho : orel _ i i' |- _ => destruct (Hopt true isw i i' w yi Ho Ei) as [yi' [-> Hci]] end.
+        eapply Hafter; [eapply crel_loop_weaken; exact Hci| |exact Hx].
+        intros w1 y1 HH1. destruct (IHLP isw c p p' b b' w1 y1 ltac:(assumption) ltac:(assumption) HH1) as [y' [Hy' Hc']].
         exists y'. split; [exact Hy'|eapply crel_loop_weaken; exact Hc'].
       + eexists. split; [exact Hx|constructor].
       + inv Hx. eexists. split; [reflexivity|]. destruct w. apply cr_break; reflexivity.
@@ -269,7 +282,7 @@ Section S.
         * eapply IHF; [|exact H1]. constructor; [split; auto|assumption].
         * eapply IHP; eauto.
     - (* native loops *)
-      intros isw c p b b' w x Hb Hx. rewrite exec_loop_S in Hx. rewrite exec_loop_S. cbv beta zeta in *.
+      intros isw c p p' b b' w x Hp Hb Hx. rewrite exec_loop_S in Hx. rewrite exec_loop_S. cbv beta zeta in *.
       assert (Hbody : forall w2 y,
         (match ex n b w2 with
          | Some (CDone (GNormal | GContinue) w3) =>
@@ -279,7 +292,7 @@ Section S.
         exists y',
         (match ex n b' w2 with
          | Some (CDone (GNormal | GContinue) w3) =>
-             after_normal (match p with None => Some (CDone GNormal w3) | Some x0 => exec n x0 w3 end) (fun w4 => exloop n c p b' w4)
+             after_normal (match p' with None => Some (CDone GNormal w3) | Some x0 => exec n x0 w3 end) (fun w4 => exloop n c p' b' w4)
          | Some (CDone GBreak w3) => Some (CDone GNormal w3)
          | other => other end) = Some y' /\ crel true isw y y').
       { intros w2 y Hy. destruct (ex n b w2) as [yb|] eqn:Eb; [|discriminate].
@@ -287,10 +300,12 @@ Section S.
         inversion Hcb; subst; try discriminate.
         - destruct yb' as [g w3| | | |]; try (inv Hy; eexists; split; [reflexivity|constructor]).
           destruct g; try (inv Hy; eexists; split; [reflexivity|constructor]).
-          + destruct (match p with None => Some (CDone GNormal w3) | Some x0 => exec n x0 w3 end) as [yp|]; [|discriminate].
-            eapply Hafter; [apply cr_same| |exact Hy]. intros w4 y4 H4. eapply IHLP; eauto.
-          + destruct (match p with None => Some (CDone GNormal w3) | Some x0 => exec n x0 w3 end) as [yp|]; [|discriminate].
-            eapply Hafter; [apply cr_same| |exact Hy]. intros w4 y4 H4. eapply IHLP; eauto.
+          + destruct (match p with None => Some (CDone GNormal w3) | Some x0 => exec n x0 w3 end) as [yp|] eqn:Ep; [|discriminate].
+            destruct (Hopt true isw p p' w3 yp Hp Ep) as [yp' [-> Hcp]].
+            eapply Hafter; [exact Hcp| |exact Hy]. intros w4 y4 H4. eapply IHLP; eauto.
+          + destruct (match p with None => Some (CDone GNormal w3) | Some x0 => exec n x0 w3 end) as [yp|] eqn:Ep; [|discriminate].
+            destruct (Hopt true isw p p' w3 yp Hp Ep) as [yp' [-> Hcp]].
+            eapply Hafter; [exact Hcp| |exact Hy]. intros w4 y4 H4. eapply IHLP; eauto.
         - inv Hy. eexists. split; [reflexivity|constructor; assumption].
         - inv Hy. eexists. split; [reflexivity|apply cr_return]. }
       destruct c as [cc|]; [|apply Hbody; exact Hx].
@@ -329,14 +344,14 @@ Section S.
         * destruct n; [discriminate|]. cbn in Hr. inv Hr. reflexivity.
       + exact Hr.
     - (* run_loop *)
-      intros c p body body' sk w r Hv Hr. rewrite run_loop_S in Hr. rewrite run_loop_S. cbv beta zeta in *.
+      intros c p p' body body' sk w r Hp Hv Hr. rewrite run_loop_S in Hr. rewrite run_loop_S. cbv beta zeta in *.
       assert (Hiter : forall w2 y,
         (match rung n body w2 with
          | Some (CDone (GNormal | GContinue) w3) => runloop n c p body false w3
          | Some (CDone GBreak w3) => Some (CDone GNormal w3)
          | other => other end) = Some y ->
         (match rung n body' w2 with
-         | Some (CDone (GNormal | GContinue) w3) => runloop n c p body' false w3
+         | Some (CDone (GNormal | GContinue) w3) => runloop n c p' body' false w3
          | Some (CDone GBreak w3) => Some (CDone GNormal w3)
          | other => other end) = Some y).
       { intros w2 y Hy. destruct (rung n body w2) as [yb|] eqn:Eb; [|discriminate].
@@ -356,19 +371,22 @@ Section S.
          end) = Some y ->
         (match c with
          | None => (fun w2 => match rung n body' w2 with
-                              | Some (CDone (GNormal | GContinue) w3) => runloop n c p body' false w3
+                              | Some (CDone (GNormal | GContinue) w3) => runloop n c p' body' false w3
                               | Some (CDone GBreak w3) => Some (CDone GNormal w3)
                               | other => other end) w1
          | Some (CExp cc) | Some (CFun cc) =>
              lift (cden cc (fst w1)) (snd w1) (fun bb w2 => if bb then
                  match rung n body' w2 with
-                 | Some (CDone (GNormal | GContinue) w3) => runloop n c p body' false w3
+                 | Some (CDone (GNormal | GContinue) w3) => runloop n c p' body' false w3
                  | Some (CDone GBreak w3) => Some (CDone GNormal w3)
                  | other => other end else Some (CDone GNormal w2))
          end) = Some y).
       { intros w1 y Hy. destruct c as [[cc|cc]|]; [| |apply Hiter; exact Hy];
           unfold lift in *; destruct (cden cc (fst w1)) as [u bb|u pv|]; auto; destruct bb; auto; apply Hiter; exact Hy. }
-      destruct sk; [apply Hap; exact Hr|]. destruct p as [ps|]; [|apply Hap; exact Hr].
-      destruct (exec n ps w) as [[g w1| | | |]|]; auto. destruct g; auto.
+      destruct sk; [apply Hap; exact Hr|]. inversion Hp as [|ps ps' Hps]; subst; [apply Hap; exact Hr|].
+      destruct (exec n ps w) as [yp|] eqn:Ep; [|discriminate].
+      destruct (IHE false false ps ps' w yp Hps Ep) as [yp' [-> Hcp]].
+      inversion Hcp; subst; try discriminate; auto.
+      destruct yp' as [g w1| | | |]; auto. destruct g; auto.
   Qed.
 End S.
